@@ -198,6 +198,14 @@ pub fn enumerate_singles(b: &Base, seed: u64, thorough: bool) -> Vec<Fault> {
             "-5".into(),
             "abc".into(),
             "".into(),
+            format!(" {}", v),
+            format!("{} ", v),
+            format!("\t{}", v),
+            format!("+{}", v),
+            format!("0x{:x}", v),
+            format!("{}.0", v),
+            format!("{}e3", v),
+            format!("00000000000000000000000000000000{}", v),
         ];
         for rep in reps {
             if rep.as_bytes() != &bytes[n.start..n.end] {
@@ -413,7 +421,10 @@ pub fn enumerate_singles(b: &Base, seed: u64, thorough: bool) -> Vec<Fault> {
     let hdr_step = if b.heavy && !thorough { 3 } else { 1 };
     let mut i = 0;
     while i < header_end {
-        for bit in [0u8, 5, 7] {
+        for bit in 0..8u8 {
+            if b.heavy && !thorough && !matches!(bit, 0 | 4 | 5 | 7) {
+                continue;
+            }
             out.push(sp("bitflip_header", i, i + 1, &[bytes[i] ^ (1 << bit)]));
         }
         i += hdr_step;
